@@ -188,7 +188,7 @@ Definition bind_list (rho : ident -> ident) (qs : list ident) (args : list expr)
   map (fun qa => SAssign (PVar (rho (fst qa))) (snd qa)) (combine qs args).
 
 (* ---------------------------------------------------------------- gensym *)
-Record ist := IS { is_used : list ident; is_ctr : nat; is_idx : nat }.
+Record ist := IS { is_used : list ident; is_ctr : nat; is_idx : nat; is_occ : nat }.
 
 Definition mk_name (base : string) (k : nat) : ident :=
   String.append base (NilEmpty.string_of_uint (Nat.to_uint k)).
@@ -204,10 +204,10 @@ Fixpoint first_free (used : list ident) (base : string) (k fuel : nat) : option 
 Definition refresh (x : ident) (st : ist) : option (ident * ist) :=
   if mem x (is_used st) then
     match first_free (is_used st) x (is_ctr st) (S (List.length (is_used st))) with
-    | Some (y, k) => Some (y, IS (y :: is_used st) k (is_idx st))
+    | Some (y, k) => Some (y, IS (y :: is_used st) k (is_idx st) (is_occ st))
     | None => None
     end
-  else Some (x, IS (x :: is_used st) (is_ctr st) (is_idx st)).
+  else Some (x, IS (x :: is_used st) (is_ctr st) (is_idx st) (is_occ st)).
 
 Fixpoint refresh_all (xs : list ident) (st : ist) : option (list (ident * ident) * ist) :=
   match xs with
@@ -224,7 +224,7 @@ Fixpoint refresh_all (xs : list ident) (st : ist) : option (list (ident * ident)
   end.
 
 Definition reserve (xs : list ident) (st : ist) : ist :=
-  IS (xs ++ is_used st) (is_ctr st) (is_idx st).
+  IS (xs ++ is_used st) (is_ctr st) (is_idx st) (is_occ st).
 
 (* the flags of `_Ctx`: the expression is the header of a `with`; it is a `while` condition *)
 Record iflags := IF { fl_hdr : bool; fl_while : bool }.
@@ -265,7 +265,10 @@ Definition ig_gen (ie : expr -> ist -> option (list stmt * expr * ist))
     end.
 
 (* "bind arguments to parameters": each argument is visited, then assigned, in order *)
-Definition ga_gen (ie : expr -> ist -> option (list stmt * expr * ist)) (rho : ident -> ident)
+Definition bind_stmt (hdrfix : bool) (q : ident) (a : expr) : stmt :=
+  if hdrfix then SContext None (ECtxVal CReal) [SAssign (PVar q) a] else SAssign (PVar q) a.
+
+Definition ga_gen (ie : expr -> ist -> option (list stmt * expr * ist)) (rho : ident -> ident) (hdrfix : bool)
     : list expr -> list ident -> ist -> option (list stmt * ist) :=
   fix ga (args : list expr) (ps : list ident) (st : ist) : option (list stmt * ist) :=
     match args, ps with
@@ -273,7 +276,7 @@ Definition ga_gen (ie : expr -> ist -> option (list stmt * expr * ist)) (rho : i
     | a :: ar, q :: qr =>
         match ie a st with None => None | Some (p1, a', st1) =>
         match ga ar qr st1 with None => None
-        | Some (p2, st2) => Some (p1 ++ SAssign (PVar (rho q)) a' :: p2, st2) end end
+        | Some (p2, st2) => Some (p1 ++ bind_stmt hdrfix (rho q) a' :: p2, st2) end end
     | _, _ => None
     end.
 
@@ -292,6 +295,12 @@ Variable V : list ident.                 (* the names of the function being tran
 Variable sel : nat -> bool.              (* `where`: which candidate sites are inlined *)
 Variable impl : ident -> option func.    (* the callee AST that is spliced (raw, or already flattened) *)
 Variable reserve_callee : bool.          (* recursive mode reserves the callee's names first *)
+(* the proposed repairs (fixes/C09-*.diff), all off for the code as it is: *)
+Variable fix_wt : bool.                  (* RenameTarget renames `with .. as x` targets *)
+Variable fix_hdr : bool.                 (* the arguments of a call in a `with` header are bound under REAL *)
+Variable refuse_extra : nat -> bool.     (* calls (numbered in visit order) refused because of their position:
+                                            decided by the implementation (an oracle here; refusing a site is
+                                            always sound, it leaves the call in place) *)
 
 (* the freshness facts the soundness proof uses, re-checked on the generated renaming (the
    `with .. as x` targets, which RenameTarget does not rename, are excluded: they are the
@@ -442,12 +451,14 @@ Fixpoint inl_expr (fl : iflags) (e : expr) (st : ist) {struct e} : option (list 
         match impl f with
         | None => None
         | Some fn =>
-            if fl_while fl || negb (Nat.eqb (count_ret_block (f_body fn)) 1) then
+            let occ := is_occ st in
+            let st := IS (is_used st) (is_ctr st) (is_idx st) (S occ) in
+            if fl_while fl || negb (Nat.eqb (count_ret_block (f_body fn)) 1) || refuse_extra occ then
               (* refused: not a site *)
               match il args st with None => None | Some (p1, args', st1) => Some (p1, ECall f args', st1) end
             else
               let idx := is_idx st in
-              let st := IS (is_used st) (is_ctr st) (S idx) in
+              let st := IS (is_used st) (is_ctr st) (S idx) (is_occ st) in
               if negb (sel idx) then
                 match il args st with None => None | Some (p1, args', st1) => Some (p1, ECall f args', st1) end
               else
@@ -456,14 +467,14 @@ Fixpoint inl_expr (fl : iflags) (e : expr) (st : ist) {struct e} : option (list 
                 | None => None
                 | Some (subst, st1) =>
                     let rho := perm_of subst in
-                    if with_target_clash rho fn then None else
-                    match ga_gen (inl_expr fl) rho args (f_params fn) st1 with
+                    if negb fix_wt && with_target_clash rho fn then None else
+                    match ga_gen (inl_expr fl) rho (fix_hdr && fl_hdr fl) args (f_params fn) st1 with
                     | None => None
                     | Some (pa, st2) =>
                         match refresh "t" st2 with
                         | None => None
                         | Some (t, st3) =>
-                            match rr_block t (ren_block rho (f_body fn)) with
+                            match rr_block t ((if fix_wt then ren_block_t rho else ren_block rho) (f_body fn)) with
                             | None => None
                             | Some body' =>
                                 if fresh_ok rho fn body' t
@@ -520,14 +531,18 @@ Definition inl_block := ib_gen inl_stmt.
 End Inline.
 
 (* ---------------------------------------------------------------- the pass *)
-Definition ist0 (fn : func) : ist := let V := func_names fn in IS V (List.length V) 0.
+Definition ist0 (fn : func) : ist := let V := func_names fn in IS V (List.length V) 0 0.
 
-(* one application of `_FuncInline` to `fn`; `wh = Some i`: only site i (which must exist) *)
-Definition inline_fn (impl : ident -> option func) (reserve_callee : bool) (wh : option nat) (fn : func)
-    : option func :=
+(* which of the proposed repairs are in force *)
+Record ifix := IFix { fx_wt : bool; fx_hdr : bool; fx_ref : ident -> nat -> bool }.
+Definition fx0 : ifix := IFix false false (fun _ _ => false).     (* the code as it is *)
+
+(* one application of `_FuncInline` to the function `fname`; `wh = Some i`: only site i (which must exist) *)
+Definition inline_fn (fx : ifix) (fname : ident) (impl : ident -> option func) (reserve_callee : bool)
+    (wh : option nat) (fn : func) : option func :=
   let V := func_names fn in
   let sel := fun i => match wh with None => true | Some k => Nat.eqb i k end in
-  match inl_block V sel impl reserve_callee (f_body fn) (ist0 fn) with
+  match inl_block V sel impl reserve_callee (fx_wt fx) (fx_hdr fx) (fx_ref fx fname) (f_body fn) (ist0 fn) with
   | None => None
   | Some (body', st) =>
       match wh with
@@ -538,21 +553,28 @@ Definition inline_fn (impl : ident -> option func) (reserve_callee : bool) (wh :
 
 (* recursive=True, where=None: every reachable function flattened bottom-up (depth bounds the
    call-graph height; a cycle is CallGraphError = None) *)
-Fixpoint inline_full (P : program) (depth : nat) (fn : func) : option func :=
+Fixpoint inline_full (fx : ifix) (P : program) (depth : nat) (fname : ident) (fn : func) : option func :=
   match depth with
   | O => None
   | S d =>
-      inline_fn (fun g => match lookup_fn P g with Some gf => inline_full P d gf | None => None end)
+      inline_fn fx fname
+                (fun g => match lookup_fn P g with Some gf => inline_full fx P d g gf | None => None end)
                 true None fn
   end.
 
 (* inline(f, where, recursive) *)
-Definition inline (P : program) (depth : nat) (recursive : bool) (wh : option nat) (fn : func) : option func :=
+Definition inline_x (fx : ifix) (P : program) (depth : nat) (recursive : bool) (wh : option nat)
+    (fname : ident) (fn : func) : option func :=
   match depth with
   | O => None
   | S d =>
       if recursive then
-        inline_fn (fun g => match lookup_fn P g with Some gf => inline_full P d gf | None => None end) true wh fn
+        inline_fn fx fname
+                  (fun g => match lookup_fn P g with Some gf => inline_full fx P d g gf | None => None end) true wh fn
       else
-        inline_fn (lookup_fn P) false wh fn
+        inline_fn fx fname (lookup_fn P) false wh fn
   end.
+
+(* the code as it is *)
+Definition inline (P : program) (depth : nat) (recursive : bool) (wh : option nat) (fn : func) : option func :=
+  inline_x fx0 P depth recursive wh EmptyString fn.
